@@ -404,6 +404,36 @@ def reuse_exporter(ctx, W, S, plan, exporter, allow, ops):
             raise Violation("C04/plan-rejected", site + " after the domain was revised", f"{type(e).__name__}: {e}")
         check_triplets(ctx, W2, S2, plan3, tr, allow, site + " after the domain was revised")
         ctx.probes["domain_revised_between_uses"] += 1
+    elif ops.chance(1, 2):
+        # the same, but the revision is made IN PLACE through the object API (an effect added to an action, a type given
+        # another parent); the exporter, its domain object and everything that was computed from it before stay in use
+        r = C.revise_model(ctx, W, exporter.domain, ops, kinds=("add_effect", "reparent_type", "reparent_type"))
+        if not r:
+            return
+        W2, what = r
+        cur, plan4 = S, []
+        for _ in range(1 + ops.draw(4)):
+            rr = C.pick_applicable_call(ctx, W2, cur, ops, tries=6)
+            if rr is None:
+                break
+            S1, c, want, _ = rr
+            if not interp.state_eq(S1, cur):
+                if plan4:
+                    continue
+                S = S1
+            plan4.append((c, "valid", want))
+            cur = want
+        if not plan4:
+            return
+        ctx.note(f"revision in place: {what}")
+        try:
+            p4 = C.parse_problem(ctx, W2.problem_text(S), exporter.domain, "problem-revised-in-place.pddl")
+            tr = exporter.parse_plan(p4, action_sequence=[C.fmt_call(*c) for c, _, _ in plan4])
+        except Exception as e:
+            raise Violation("C04/plan-rejected", site + " after the domain was revised in place",
+                            f"{what}: {type(e).__name__}: {e}")
+        check_triplets(ctx, W2, S, plan4, tr, allow, site + " after the domain was revised in place")
+        ctx.probes["domain_revised_in_place_between_uses"] += 1
 
 
 def direct(ctx, op, st, kind, want, c):
